@@ -210,6 +210,47 @@ def main(run):
         if not _close(back, full0, scale):
             run.violation("compact_fc_to_full_fc", "layout-roundtrip", "full->compact->full is not the identity on a periodic array",
                           dict(cell=name, smat=smat.tolist(), pmat=pm))
+        # storage variants of the input: Fortran order, a transposed view, float32, a list -- the layout
+        # converters must hand out arrays the compiled routines can consume (C-contiguous double) with the
+        # same values, and the compact routine on them must still act as the full routine
+        if made % 2 == 0:
+            variants = {
+                "fortran": np.asfortranarray(full0),
+                "strided-view": np.concatenate([full0, full0], axis=1)[:, ::2][:, : full0.shape[1]] if False else np.ascontiguousarray(full0.transpose(1, 0, 2, 3)).transpose(1, 0, 2, 3),
+                "float32": full0.astype("float32"),
+            }
+            for vname, varr in variants.items():
+                cv = F.full_fc_to_compact_fc(ph.primitive, varr)
+                ref_c = F.full_fc_to_compact_fc(ph.primitive, np.array(varr, dtype="double", order="C"))
+                # the compiled routines read the raw buffer as doubles (c/_phonopy.cpp: untyped nb::ndarray<>, .data()):
+                # anything but a double array cannot be consumed by them at all; values are compared as handed out
+                if not (isinstance(cv, np.ndarray) and cv.dtype == np.dtype("double")):
+                    run.violation("full_fc_to_compact_fc", "storage-variant-" + vname,
+                                  "compact array from a %s full array is not a double array (dtype %s): the in-place compact routines cannot consume it" % (vname, getattr(cv, "dtype", None)),
+                                  dict(cell=name, smat=smat.tolist(), pmat=pm, variant=vname))
+                    continue
+                if not _close(cv, ref_c, scale):
+                    run.violation("full_fc_to_compact_fc", "storage-variant-" + vname,
+                                  "compact array from a %s full array differs from that of the C-ordered double array by %.3g" % (vname, np.abs(cv - ref_c).max()),
+                                  dict(cell=name, smat=smat.tolist(), pmat=pm, variant=vname))
+                    continue
+                # end effect, on the very array that was handed out (in place, as a caller would use it); its memory
+                # layout is not judged by itself
+                if not cv.flags.c_contiguous:
+                    run.count("oracle-storage-variants: converter handed out a non-C-contiguous array (observation)", section="oracle")
+                cv2 = cv if (cv.flags.writeable and cv.base is None) else np.array(cv, order="K")
+                F.symmetrize_compact_force_constants(cv2, ph.primitive, level=1)
+                ref2 = ref_c.copy()
+                F.symmetrize_compact_force_constants(ref2, ph.primitive, level=1)
+                if not _close(cv2, ref2, scale):
+                    run.violation("symmetrize_compact_force_constants", "storage-variant-" + vname,
+                                  "in-place compact symmetrisation of the array handed out for a %s full array differs from the reference by %.3g (C-contiguous: %s)" % (vname, np.abs(cv2 - ref2).max(), cv2.flags.c_contiguous),
+                                  dict(cell=name, smat=smat.tolist(), pmat=pm, variant=vname))
+                fv = F.compact_fc_to_full_fc(ph.primitive, np.asfortranarray(ref_c))
+                if not _close(fv, F.compact_fc_to_full_fc(ph.primitive, ref_c), scale):
+                    run.violation("compact_fc_to_full_fc", "storage-variant-fortran", "expansion of a Fortran-ordered compact array differs",
+                                  dict(cell=name, smat=smat.tolist(), pmat=pm))
+            run.count("oracle-storage-variants", section="oracle")
         cback = F.full_fc_to_compact_fc(ph.primitive, full0)
         if not _close(cback, fcc0, scale):
             run.violation("full_fc_to_compact_fc", "layout-roundtrip", "compact->full->compact is not the identity",
